@@ -31,6 +31,7 @@ type c18World struct {
 	finished  int
 	release   chan struct{}
 	hosts     int
+	loopsStarted int
 	subnetOf  map[*Peer]string
 	holdPeers bool // peers stay connected (acceptRPC blocks) until released or stopped
 	refused   int
@@ -234,8 +235,10 @@ func (c *c18Conn) SetReadDeadline(t time.Time) error  { return nil }
 func (c *c18Conn) SetWriteDeadline(t time.Time) error { return nil }
 
 type c18Listener struct {
-	conns  []*c18Conn
-	closed chan struct{}
+	conns    []*c18Conn
+	closed   chan struct{}
+	isClosed bool
+	netErr   bool // report net.ErrClosed like a real listener
 }
 
 func (l *c18Listener) Accept() (net.Conn, error) {
@@ -245,12 +248,14 @@ func (l *c18Listener) Accept() (net.Conn, error) {
 		return c, nil
 	}
 	<-l.closed
+	if l.netErr {
+		return nil, net.ErrClosed
+	}
 	return nil, errListenerClosed
 }
 func (l *c18Listener) Close() error {
-	select {
-	case <-l.closed:
-	default:
+	if !l.isClosed { // (a real listener serialises Close internally)
+		l.isClosed = true
 		close(l.closed)
 	}
 	return nil
@@ -318,4 +323,70 @@ func VerifH_C18_inbound_cap() {
 	vapi.Note("blocked", vapi.Blocked())
 	vapi.Assert("cap.shutdown-no-goroutine-left", n == 0)
 	vapi.Assert("cap.shutdown-peers-removed", len(s.peers) == 0)
+}
+
+// ---- Run / Close ---------------------------------------------------------------
+
+//verif:replace (*go.sia.tech/coreutils/syncer.Syncer).peerLoop
+func stubPeerLoop(s *Syncer, ctx context.Context) error {
+	if c18 == nil {
+		return s.peerLoop(ctx)
+	}
+	c18.loopsStarted++
+	<-ctx.Done()
+	return nil // as the real loop does
+}
+
+//verif:replace (*go.sia.tech/coreutils/syncer.Syncer).syncLoop
+func stubSyncLoop(s *Syncer, ctx context.Context) error {
+	if c18 == nil {
+		return s.syncLoop(ctx)
+	}
+	<-ctx.Done()
+	return nil // as the real loop does
+}
+
+// runRegistered: Run got past its AddContext (its loops were started).
+func (w *c18World) runRegistered() bool { return w.loopsStarted > 0 }
+
+// VerifH_C18_run_close: Syncer.Run with its accept loop, 0..2 inbound
+// connections becoming peers, and Close at an arbitrary moment. peerLoop and
+// syncLoop are reduced to "wait for shutdown" (their bodies are tickers and
+// network calls).
+//
+//verif:harness prop=C18 tier=quick replay=interp go=sched preempt=2 require=closed bounds="0..2 inbound connections, Close concurrent with Run, the accept loop and the peers; ≤2 delays"
+func VerifH_C18_run_close() {
+	w := newC18(1, 0)
+	s := w.s
+	s.config.MaxInboundPeers = 4
+	s.config.ConnectTimeout = time.Second
+	w.holdPeers = true
+	l := &c18Listener{closed: make(chan struct{}), netErr: true}
+	nConn := vapi.Int("conns", 0, 2)
+	for k := 0; k < nConn; k++ {
+		l.conns = append(l.conns, &c18Conn{addr: c18Addr("10.0.0.1:" + string(rune('1'+k))), id: byte(k + 1)})
+	}
+	s.l = l
+	var runErr error
+	ran := false
+	go func() {
+		runErr = s.Run()
+		ran = true
+	}()
+	vapi.Yield()
+	err := s.Close()
+	vapi.Assert("run.close-ok", err == nil)
+	// Close waits for the thread group: Run (if it got as far as registering),
+	// its loops and every peer
+	vapi.Assert("run.close-waits-for-run", ran || !w.runRegistered())
+	vapi.Assert("run.close-leaves-no-peer", len(s.peers) == 0)
+	vapi.Reach("closed")
+	left := vapi.WaitIdle()
+	vapi.Note("blocked", vapi.Blocked())
+	vapi.Assert("run.no-goroutine-left", left == 0)
+	vapi.Assert("run.returned", ran)
+	vapi.Assert("run.graceful", runErr == nil || errors.Is(runErr, threadgroup.ErrClosed))
+	// afterwards nothing new is accepted
+	_, err = s.Connect(context.Background(), "10.0.0.9:1")
+	vapi.Assert("run.connect-after-close-rejected", err != nil)
 }
